@@ -89,6 +89,16 @@ class SimRaw(io.RawIOBase):
         self.name = path
         self.trace = fs.trace  # the run this handle belongs to
 
+    def fileno(self):
+        """A (fake) descriptor of its own, so that os.fsync(f.fileno()) / os.fstat work."""
+        if getattr(self, "_fd", None) is None:
+            self._fd = self.fs.FD_BASE + len(self.fs._fds)
+            self.fs._fds[self._fd] = self
+        return self._fd
+
+    def isatty(self):
+        return False
+
     def readable(self):
         return self._reading
 
